@@ -442,9 +442,9 @@ pub fn run(ctx: &RunCtx) -> i32 {
         exhaustive: false,
     };
     let ops: Vec<&'static OpInfo> = OPS.iter().filter(|o| o.in_model && o.name != "WriteGetObjectResponse").collect();
-    let cfg0 = LoopCfg { host: HostCfg::None, vhost: false, auth: false, hops: 1 };
-    let cfg1 = LoopCfg { host: HostCfg::Single(L_DOMAIN.into()), vhost: true, auth: true, hops: 1 };
-    let cfg2 = LoopCfg { host: HostCfg::None, vhost: false, auth: false, hops: 2 };
+    let cfg0 = LoopCfg { host: HostCfg::None, vhost: false, auth: false, hops: 1, route: false };
+    let cfg1 = LoopCfg { host: HostCfg::Single(L_DOMAIN.into()), vhost: true, auth: true, hops: 1, route: false };
+    let cfg2 = LoopCfg { host: HostCfg::None, vhost: false, auth: false, hops: 2, route: false };
     let n_random = ctx.tier.sz(1500, 40_000);
     let sys_reps = ctx.tier.sz(16, 80);
     let mut total = par_run(ctx.workers, ops.len() as u64, |j, r| {
